@@ -222,6 +222,40 @@ fn model_const(kind: Kind, toks: &[Tok], sw: Switch) -> ModelOut {
     ModelOut { value, rest, errors: sc.errors, undefined: sc.undefined }
 }
 
+/// The token list contains a non-decimal constant (`'` + octal digits, `"` + hex digits, `` ` `` + a
+/// character or single-character control sequence) directly followed by `.` or `,` and a decimal digit.
+fn nondecimal_fraction(toks: &[Tok]) -> bool {
+    let digit = |t: &Tok, radix: u32| match t {
+        Tok::Other(c) if c.is_ascii_digit() => (*c as u32 - '0' as u32) < radix,
+        Tok::Other(c) | Tok::Letter(c) => radix == 16 && ('A'..='F').contains(c),
+        _ => false,
+    };
+    for i in 0..toks.len() {
+        let end = match &toks[i] {
+            Tok::Other('\'') | Tok::Other('"') => {
+                let radix = if toks[i] == Tok::Other('"') { 16 } else { 8 };
+                let mut j = i + 1;
+                while j < toks.len() && digit(&toks[j], radix) {
+                    j += 1;
+                }
+                if j == i + 1 {
+                    continue;
+                }
+                j
+            }
+            Tok::Other('`') => match toks.get(i + 1) {
+                Some(Tok::Letter(_) | Tok::Other(_) | Tok::Cs(Some(_)) | Tok::Macro(Some(_), _)) => i + 2,
+                _ => continue,
+            },
+            _ => continue,
+        };
+        if matches!(toks.get(end), Some(Tok::Other('.' | ','))) && matches!(toks.get(end + 1), Some(Tok::Other(c)) if c.is_ascii_digit()) {
+            return true;
+        }
+    }
+    false
+}
+
 /// `\<kind>0=<csrc>\relax|\the\<kind>0|` against the scanner model.
 fn check_const(idx: u64, kind: Kind, regs: &Regs, csrc: &str, acc: &mut Acc) {
     acc.eval();
@@ -287,7 +321,14 @@ fn check_const(idx: u64, kind: Kind, regs: &Regs, csrc: &str, acc: &mut Acc) {
                 acc.count("undefined_by_texweb_no_panic");
                 return;
             }
-            if m.errors.iter().any(|e| matches!(e, ScanError::MissingNumber | ScanError::ImproperAlpha | ScanError::IllegalUnit)) {
+            // Sub-domain judged precisely although TeX calls it malformed: an octal / hexadecimal / alphabetic
+            // integer part directly followed by `.` or `,` and a digit. tex.web §448 scans a fraction only when
+            // radix = 10, so the point is an illegal unit: "pt inserted", the integer is stored, `.5pt` is typeset.
+            let nondecimal_fraction = nondecimal_fraction(&toks) && m.errors.iter().all(|e| matches!(e, ScanError::IllegalUnit | ScanError::DimensionTooLarge | ScanError::NumberTooBig | ScanError::IllegalFil));
+            if nondecimal_fraction {
+                acc.count("nondecimal_constant_followed_by_fraction");
+            }
+            if !nondecimal_fraction && m.errors.iter().any(|e| matches!(e, ScanError::MissingNumber | ScanError::ImproperAlpha | ScanError::IllegalUnit)) {
                 // TeX itself finds no well-formed constant here (no digits, no unit): the crate makes some
                 // of these fatal by design and is lenient for others (`1 .5pt`); the property quantifies over
                 // constants and over values beyond the limits, so only "no panic" is required
@@ -1136,7 +1177,7 @@ fn main() {
     ctx.assume("em and ex are 12pt (TexlangState defaults of the harness state); the model takes them as parameters");
     ctx.assume("operands equal to -2^31 are outside TeX's integer range (tex.web negates them, a Pascal range violation): for them only 'no panic' is required, except for \\advance where the property states wrap-around");
     ctx.assume("unit and glue keywords are written with category-11 letters; character codes above 255 are legal in alphabetic constants (Unicode engine)");
-    ctx.assume("texts in which TeX itself finds no well-formed constant (no digit: 'Missing number'; no unit: 'Illegal unit of measure'; 'Improper alphabetic constant') are outside the property's quantifier (the crate deliberately makes some of these fatal and is lenient for others): only 'no panic' is required for them; error recovery is C09's subject");
+    ctx.assume("texts in which TeX itself finds no well-formed constant (no digit: 'Missing number'; no unit: 'Illegal unit of measure'; 'Improper alphabetic constant') are outside the property's quantifier (the crate deliberately makes some of these fatal and is lenient for others): only 'no panic' is required for them; error recovery is C09's subject. Exception, judged precisely (value, errors, left-over text): a non-decimal integer part directly followed by `.`/`,` and digits, where tex.web §448 scans no fraction");
     ctx.assume("mu units and \\fontdimen-dependent em/ex are outside the crate's surface");
     self_validate(&mut ctx);
 
@@ -1230,7 +1271,7 @@ fn main() {
     {
         let widths = ["0pt", "1pt", "-1.5pt ", "16384pt", "\\dimen1 ", "\\count1 pt", "-\\count1 sp", "\\skip1 ", "-\\skip1 ", "1", ".5\\dimen1 "];
         let comps = [
-            "", "1pt", "1fil", " 1.5fill", "-2filll", "1fillll", "1fil l", "1 fil", "1FIL", "1fil ", "30000000fil", "-30000000fill", "0fil", "\\dimen1 ", "1\\dimen1 ", "-.5\\skip1 ", "1fi", "1", "\\count1 fil", "16383.99999fil", "\\s\\s 2filll", "1true pt", "1em", "1truefil",
+            "", "1pt", "1fil", " 1.5fill", "-2filll", "1fillll", "1fil l", "1 fil", "1FIL", "1fil ", "30000000fil", "-30000000fill", "0fil", "\\dimen1 ", "1\\dimen1 ", "-.5\\skip1 ", "1fi", "1", "\\count1 fil", "16383.99999fil", "\\s\\s 2filll", "1true pt", "1em", "1truefil", "\"A.5pt", "'7,5fil", "`a.25fill",
         ];
         let kws = [("plus", "minus"), (" plus ", " minus "), ("\\s\\s plus", "\\s\\s minus"), ("PLUS", "Minus")];
         let rad = [widths.len() as u64, comps.len() as u64, comps.len() as u64, kws.len() as u64];
@@ -1392,6 +1433,7 @@ fn main() {
     ctx.require("err_illegal_unit", "unknown unit");
     ctx.require("err_illegal_fil", "fillll");
     ctx.require("err_missing_number", "vacuous constant");
+    ctx.require("nondecimal_constant_followed_by_fraction", "an octal / hex / alphabetic integer part directly followed by a decimal point and digits (judged precisely)");
     for u in ["unit_pt", "unit_pc", "unit_in", "unit_bp", "unit_cm", "unit_mm", "unit_dd", "unit_cc", "unit_sp", "unit_em", "unit_ex", "unit_true", "unit_fil"] {
         ctx.require(u, "the unit is exercised");
     }
